@@ -267,9 +267,9 @@ Proof.
 Qed.
 
 (* a named write of a fresh value keeps the stored names right *)
-Lemma set_field_name_names_ok n pp d a v node' :
+Lemma set_field_name_names_ok mx n pp d a v node' :
   names_ok (VSub d a) = true -> names_ok v = true ->
-  set_field (FName n) pp (VSub d a) None v = Ok node' -> names_ok node' = true.
+  set_field mx (FName n) pp (VSub d a) None v = Ok node' -> names_ok node' = true.
 Proof.
   intros HN Hv H. cbn in H. inversion H; subst.
   rewrite names_ok_sub in HN. rewrite names_ok_sub. apply andb_true_iff in HN as [Hd Ha].
